@@ -177,6 +177,20 @@ where
       Some(self.parent_socket_id),
     );
 
+    // The event bus subscription was taken when this actor was built. If the context began to
+    // shut down before that, the ContextTerminating broadcast has been missed for good: without
+    // this check the session would sit in its handshake (or run) after Context::term() returned.
+    if self
+      .actor_config
+      .context
+      .inner()
+      .shutdown_initiated
+      .load(std::sync::atomic::Ordering::Acquire)
+    {
+      actor_drop_guard.waive();
+      return;
+    }
+
     let adaptive_throttle = {
       let mut config = self.zmtp_engine.config().throttle_config.clone();
       if self.actor_config.is_server_role {
